@@ -187,18 +187,45 @@ func sumColumn(rows []map[string]any, colName string) float64 {
 	for _, rowData := range rows {
 		val, ok := rowData[colName]
 		if ok {
-			switch v := val.(type) {
-			case int:
-				sum += float64(v)
-			case float64:
-				sum += v
-			case float32:
-				sum += float64(v)
+			if f, isNumber := groupNumber(val); isNumber {
+				sum += f
 			}
 		}
 	}
 
 	return sum
+}
+
+// groupNumber reports the value of a cell of any Go integer or float type
+// (int64 is what FromSQL produces for INTEGER columns). Text is not a number here.
+func groupNumber(val any) (float64, bool) {
+	switch v := val.(type) {
+	case int:
+		return float64(v), true
+	case int8:
+		return float64(v), true
+	case int16:
+		return float64(v), true
+	case int32:
+		return float64(v), true
+	case int64:
+		return float64(v), true
+	case uint:
+		return float64(v), true
+	case uint8:
+		return float64(v), true
+	case uint16:
+		return float64(v), true
+	case uint32:
+		return float64(v), true
+	case uint64:
+		return float64(v), true
+	case float32:
+		return float64(v), true
+	case float64:
+		return v, true
+	}
+	return 0, false
 }
 
 func (gdf *GroupedDataFrame) GetAllColumnNames() []string {
@@ -274,18 +301,9 @@ func averageColumn(rows []map[string]any, colName string) float64 {
 	for _, rowData := range rows {
 		val, ok := rowData[colName] // access the row data
 		if ok {
-			switch v := val.(type) {
-			case int:
-				sum += float64(v)
+			if f, isNumber := groupNumber(val); isNumber {
+				sum += f
 				count++
-			case float64:
-				sum += v
-				count++
-			case float32:
-				sum += float64(v)
-				count++
-			default:
-				continue
 			}
 		}
 	}
